@@ -282,32 +282,49 @@ Print Assumptions C11_binary_colvar_truncated_is_error.
    there is no exception: EVERY proper prefix of the written block is rejected. *)
 Theorem C11_binary_bias_truncated_is_error :
   forall (matches : bbias -> list byte -> option bool) (params_ok : bbias -> list byte -> bool)
-         (b : bbias) (kwd conf : list byte) (its : list item) (hs : list (list item)) (b1 p q : list byte) (mx : N) (o : bool),
+         (expected_hills : bbias -> list byte -> option nat) (b : bbias) (kwd conf : list byte) (its : list item) (hs : list (list item)) (b1 p q : list byte) (mx : N) (o : bool),
   (bb_kind b <> 1%nat -> hs = []) -> item_ok (IStr kwd) -> item_ok (IStr conf) ->
   bytes_eqb kwd (bb_kw b) || bytes_eqb kwd (bb_type b) = true ->
   matches b conf = Some true -> params_ok b conf = true ->
   fields_match (bb_fields b) its -> Forall (hill_ok (bb_nvar b)) hs ->
   enc_obj kwd conf its hs = p ++ q -> q <> [] -> blen (b1 ++ p) < W64 ->
   (forall k, p <> enc_header kwd conf ++ enc_all its ++ enc_hills (firstn k hs)) ->
-  bias_read matches params_ok b (rst (b1 ++ p) mx false false false (blen b1) o) = BErr \/
-  exists s, bias_read matches params_ok b (rst (b1 ++ p) mx false false false (blen b1) o) = BOk s true.
+  bias_read matches params_ok expected_hills b (rst (b1 ++ p) mx false false false (blen b1) o) = BErr \/
+  exists s, bias_read matches params_ok expected_hills b (rst (b1 ++ p) mx false false false (blen b1) o) = BOk s true.
 Proof. exact bias_cut. Qed.
 Print Assumptions C11_binary_bias_truncated_is_error.
 
-(* The full statement of the property text for binary states, "every proper prefix of a valid state is
-   reported as an error", is FALSE of the format (known_findings.txt, load.binary-prefix-accepted:at-hill-boundary):
-   there is neither a hill count nor an end marker, so data that stop exactly between two hills of the
-   last object are a well-formed state with fewer hills.  The exceptions of the theorem above are exactly
-   these, and they are accepted: *)
-Theorem C11_binary_hill_boundary_accepted :
+(* With the number of hills announced in the configuration string of the object ("numHills <n>", written by
+   get_state_params() since the fix: commit of round 4; expected_hills b conf = Some (length hs)) there is no
+   exception left: EVERY proper prefix of a metadynamics object is rejected, also one that stops exactly between
+   two hills (num_hills_read != state_num_hills).  This is the property text's clause for binary states in full. *)
+Theorem C11_binary_bias_truncated_is_error_counted :
   forall (matches : bbias -> list byte -> option bool) (params_ok : bbias -> list byte -> bool)
-         (b : bbias) (kwd conf : list byte) (its : list item) (hs : list (list item)) (k : nat) (b1 : list byte) (mx : N) (o : bool),
+         (expected_hills : bbias -> list byte -> option nat) (b : bbias)
+         (kwd conf : list byte) (its : list item) (hs : list (list item)) (b1 p q : list byte) (mx : N) (o : bool),
   bb_kind b = 1%nat -> item_ok (IStr kwd) -> item_ok (IStr conf) ->
   bytes_eqb kwd (bb_kw b) || bytes_eqb kwd (bb_type b) = true ->
   matches b conf = Some true -> params_ok b conf = true ->
+  expected_hills b conf = Some (length hs) ->
+  fields_match (bb_fields b) its -> Forall (hill_ok (bb_nvar b)) hs ->
+  enc_obj kwd conf its hs = p ++ q -> q <> [] -> blen (b1 ++ p) < W64 ->
+  bias_read matches params_ok expected_hills b (rst (b1 ++ p) mx false false false (blen b1) o) = BErr \/
+  exists s, bias_read matches params_ok expected_hills b (rst (b1 ++ p) mx false false false (blen b1) o) = BOk s true.
+Proof. exact bias_cut_counted. Qed.
+Print Assumptions C11_binary_bias_truncated_is_error_counted.
+
+(* States written before the number of hills was added (expected_hills b conf = None) cannot be told from their
+   prefixes that stop exactly between two hills: those are still accepted (old files stay readable; the former
+   known finding load.binary-prefix-accepted:at-hill-boundary, now confined to old files): *)
+Theorem C11_binary_hill_boundary_accepted :
+  forall (matches : bbias -> list byte -> option bool) (params_ok : bbias -> list byte -> bool)
+         (expected_hills : bbias -> list byte -> option nat) (b : bbias) (kwd conf : list byte) (its : list item) (hs : list (list item)) (k : nat) (b1 : list byte) (mx : N) (o : bool),
+  bb_kind b = 1%nat -> item_ok (IStr kwd) -> item_ok (IStr conf) ->
+  bytes_eqb kwd (bb_kw b) || bytes_eqb kwd (bb_type b) = true ->
+  matches b conf = Some true -> params_ok b conf = true -> expected_hills b conf = None ->
   fields_match (bb_fields b) its -> Forall (hill_ok (bb_nvar b)) hs -> (k <= length hs)%nat ->
   blen (b1 ++ enc_header kwd conf ++ enc_all its ++ enc_hills (firstn k hs)) < W64 ->
-  exists s, bias_read matches params_ok b
+  exists s, bias_read matches params_ok expected_hills b
               (rst (b1 ++ enc_header kwd conf ++ enc_all its ++ enc_hills (firstn k hs)) mx false false false (blen b1) o) = BOk s false.
 Proof. exact bias_hill_boundary. Qed.
 Print Assumptions C11_binary_hill_boundary_accepted.
@@ -316,20 +333,24 @@ Print Assumptions C11_binary_hill_boundary_accepted.
    any fixed data: ABF with or without CZAR grids, histogram, restraints -- last or not) and possibly a last bias
    object with a list of hills (the order of the module's lists puts metadynamics last).
    The data end anywhere after the global block and before the end of the state (p is a proper prefix of what
-   follows the global block): the load reports an error -- except when the data end exactly between two hills
-   of that last bias (C11_binary_hill_boundary_accepted: the format cannot tell).  This composes the record
+   follows the global block): the load reports an error -- with the one exception of a state written before the
+   number of hills was announced (expected_hills = None) whose data end exactly between two hills of that last
+   bias (C11_binary_hill_boundary_accepted); when the number is announced there is no exception.  This composes the record
    theorems over read_objects_state(memory_stream &). *)
 Theorem C11_binary_state_cut_is_error :
   forall (cv_ok : list byte -> bool) (matches : bbias -> list byte -> option bool) (params_ok : bbias -> list byte -> bool)
-         (gconf : list byte) (datas : list (list byte)) (xs : list bobj) (last : option bobj) (p q : list byte),
+         (expected_hills : bbias -> list byte -> option nat) (gconf : list byte) (datas : list (list byte)) (xs : list bobj) (last : option bobj) (p q : list byte),
   item_ok (IStr gconf) -> Forall (cv_data_ok cv_ok) datas ->
   Forall (obj_ok matches params_ok) xs -> Forall plain xs ->
-  match last with Some x => obj_ok matches params_ok x /\ bb_kind (o_b x) = 1%nat | None => True end ->
+  match last with
+  | Some x => obj_ok matches params_ok x /\ bb_kind (o_b x) = 1%nat /\
+              match expected_hills (o_b x) (o_conf x) with Some n => n = length (o_hs x) | None => True end
+  | None => True end ->
   concat (map cv_enc datas) ++ concat (map benc xs) ++ match last with Some x => benc x | None => [] end = p ++ q ->
   q <> [] -> blen (magic ++ genc gconf ++ p) < W64 ->
-  (forall x k, last = Some x ->
+  (forall x k, last = Some x -> expected_hills (o_b x) (o_conf x) = None ->
      p <> concat (map cv_enc datas) ++ concat (map benc xs) ++ enc_header (o_kwd x) (o_conf x) ++ enc_all (o_its x) ++ enc_hills (firstn k (o_hs x))) ->
-  load_bin cv_ok matches params_ok (length datas)
+  load_bin cv_ok matches params_ok expected_hills (length datas)
            (map o_b xs ++ match last with Some x => [o_b x] | None => [] end) (magic ++ genc gconf ++ p) = true.
 Proof. exact binary_state_cut. Qed.
 Print Assumptions C11_binary_state_cut_is_error.
@@ -436,9 +457,9 @@ Definition ex_obj : list byte := enc_header [109;101;116;97] [110;32;109] ++ enc
 Example C11_example_binary_cut :
   Forall (hill_ok 1) [ex_hill 1; ex_hill 2] /\
   (let p := firstn (N.to_nat (blen (enc_header [109;101;116;97] [110;32;109] ++ enc_all (ex_hill 1)) + 8)) ex_obj in
-   exists s, bias_read (fun _ _ => Some true) (fun _ _ => true) ex_bb (input_stream p) = BOk s true) /\
+   exists s, bias_read (fun _ _ => Some true) (fun _ _ => true) (fun _ _ => None) ex_bb (input_stream p) = BOk s true) /\
   (let p := enc_header [109;101;116;97] [110;32;109] ++ enc_all (ex_hill 1) in
-   exists s, bias_read (fun _ _ => Some true) (fun _ _ => true) ex_bb (input_stream p) = BOk s false) /\
+   exists s, bias_read (fun _ _ => Some true) (fun _ _ => true) (fun _ _ => None) ex_bb (input_stream p) = BOk s false) /\
   fst (read_string (snd (read_string (input_stream (le64 3 ++ [1;2;3] ++ le64 18446744073709551615 ++ [4;5]))))) = RNone.
 Proof.
   split; [|split; [|split]].
@@ -469,10 +490,10 @@ Definition ex_abf : bbias := mkBB [97;98;102] [97;98;102] 0 1 ex_abf_fields.
 Example C11_example_abf_czar_cut :
   fields_match ex_abf_fields ex_abf_items /\
   (let pre := enc_header [97;98;102] [110;32;97] ++ enc_all (firstn 6 ex_abf_items) in
-   bias_read (fun _ _ => Some true) (fun _ _ => true) ex_abf (input_stream pre) = BErr /\
-   bias_read (fun _ _ => Some true) (fun _ _ => true) ex_abf
+   bias_read (fun _ _ => Some true) (fun _ _ => true) (fun _ _ => None) ex_abf (input_stream pre) = BErr /\
+   bias_read (fun _ _ => Some true) (fun _ _ => true) (fun _ _ => None) ex_abf
              (input_stream (firstn (length pre + 9) (enc_obj [97;98;102] [110;32;97] ex_abf_items []))) = BErr) /\
-  (exists s, bias_read (fun _ _ => Some true) (fun _ _ => true) ex_abf (input_stream (enc_obj [97;98;102] [110;32;97] ex_abf_items [])) = BOk s false).
+  (exists s, bias_read (fun _ _ => Some true) (fun _ _ => true) (fun _ _ => None) ex_abf (input_stream (enc_obj [97;98;102] [110;32;97] ex_abf_items [])) = BOk s false).
 Proof.
   split; [|split; [split|]].
   - repeat constructor; cbn [field_ok shape_of shape_of_field item_ok]; try reflexivity; try (vm_compute; reflexivity).
@@ -480,3 +501,14 @@ Proof.
   - vm_compute. reflexivity.
   - vm_compute. eexists. reflexivity.
 Qed.
+
+(* the number of hills in the configuration string: "n m\nnumHills 2\n" announces 2; the object of
+   C11_example_binary_cut with that configuration, cut between its two hills, is now an error *)
+Definition ex_conf_counted : list byte := [110;32;109;10;110;117;109;72;105;108;108;115;32;50;10].
+Example C11_example_counted_hills :
+  find_numhills ex_conf_counted = Some 2%nat /\ find_numhills [110;32;109] = None /\
+  bias_read (fun _ _ => Some true) (fun _ _ => true) (fun _ c => find_numhills c) ex_bb
+            (input_stream (enc_header [109;101;116;97] ex_conf_counted ++ enc_all (ex_hill 1))) = BErr /\
+  (exists s, bias_read (fun _ _ => Some true) (fun _ _ => true) (fun _ c => find_numhills c) ex_bb
+               (input_stream (enc_header [109;101;116;97] ex_conf_counted ++ enc_hills [ex_hill 1; ex_hill 2])) = BOk s false).
+Proof. split; [|split; [|split]]; vm_compute; try reflexivity. eexists. reflexivity. Qed.
